@@ -95,18 +95,19 @@ def run(prog, rep, tier, cfg):
                      ['F:%s.amount' % SV, 'F:LaneState.redeemed', 'F:State.to_send', 'C:::sub', 'C:::add'], 'to_send = amount - (redeemed on lane + merged lanes) + to_send')
         X.accumulates('K10', 'update:merged-redeemed-summed', C, ['F:LaneState.redeemed'], 'redeemed amounts of all merged lanes are summed')
         X.value_from('K10', 'update:lane.nonce', C, [x for x in X.stmt_rvalue_atoms(C, 'LaneState', 'nonce') if not has_atom(x[1], 'F:Merge.nonce')], ['F:%s.nonce' % SV], 'lane nonce := voucher nonce', copy=True)
-        X.value_from('K10', 'update:merged.nonce', C, [x for x in X.stmt_rvalue_atoms(C, 'LaneState', 'nonce') if has_atom(x[1], 'F:Merge.nonce')], ['F:Merge.nonce'], 'merged lane nonce := merge nonce', copy=True)
+        fam = [C] + list(prog.closures_of(C.id))
+        mn = [(g, x) for g in fam for x in X.stmt_rvalue_atoms(g, 'LaneState', 'nonce') if has_atom(x[1], 'F:Merge.nonce')]
+        X.value_from('K10', 'update:merged.nonce', mn[0][0] if mn else C, [x for (_g, x) in mn], ['F:Merge.nonce'], 'merged lane nonce := merge nonce', copy=True)
         X.value_from('K10', 'update:lane.redeemed', C, X.stmt_rvalue_atoms(C, 'LaneState', 'redeemed'), ['F:%s.amount' % SV], 'lane redeemed := voucher amount', copy=True, forbid=['F:LaneState.redeemed'])
-        sets = [c.bb for c in C.calls if (c.callee or '').endswith('Amt::<V, BS, VER>::set') or (c.callee or '').endswith('::set')]
+        sets = [c.bb for g in fam for c in g.calls if (c.callee or '').endswith('Amt::<V, BS, VER>::set') or (c.callee or '').endswith('::set')]
         rep.floor('K7', 'lane_set_sites', len(sets), 2)
         X.followed_by('K7', 'update:lanes-stored', C, W, X.write_blocks(C, 'State', 'lane_states'), 'the updated lane table is flushed into the state')
         # settle height only raised
         ws = X.write_blocks(C, 'State', 'settling_at')
-        X.guard('K6b', 'update:settling_at-only-raised', C, ws, m_rel('lt', ['F:State.settling_at'], ['F:%s.min_settle_height' % SV], True, pure=True), 'settling_at < min_settle_height')
+        X.raised_only('K6b', 'update:settling_at-only-raised', C, 'State', 'settling_at', ['F:%s.min_settle_height' % SV], 'a voucher can only push settling_at later (if settling_at < min_settle_height { = } or = max(..))')
         X.guard('K6b', 'update:settling_at-only-if-settling', C, ws, m_rel('ne', ['F:State.settling_at'], ['V:0'], True), 'settling_at != 0')
-        X.value_from('K10', 'update:settling_at-value', C, X.stmt_rvalue_atoms(C, 'State', 'settling_at'), ['F:%s.min_settle_height' % SV], 'settling_at := voucher.min_settle_height', copy=True)
         wm = X.write_blocks(C, 'State', 'min_settle_height')
-        X.guard('K6b', 'update:min_settle_height-only-raised', C, wm, m_rel('lt', ['F:State.min_settle_height'], ['F:%s.min_settle_height' % SV], True, pure=True), 'st.min_settle_height < sv.min_settle_height')
+        X.raised_only('K6b', 'update:min_settle_height-only-raised', C, 'State', 'min_settle_height', ['F:%s.min_settle_height' % SV], 'a voucher can only raise the minimum settle height')
     # --- settle
     ST = X.fn('Actor::settle', CR)
     for C in prog.closures_of(ST.id, recursive=False):
@@ -114,12 +115,14 @@ def run(prog, rep, tier, cfg):
         if not ws:
             continue
         X.guard('K6b', 'settle:once', C, ws, m_rel('ne', ['F:State.settling_at'], ['V:0'], False), 'settling_at != 0 => Err')
-        vals = X.stmt_rvalue_atoms(C, 'State', 'settling_at')
+        vals = X.stmt_rvalue_atoms(C, 'State', 'settling_at', narrow=False)
         first = [v for v in vals if has_atom(v[1], 'K:SETTLE_DELAY')]
-        raised = [v for v in vals if not has_atom(v[1], 'K:SETTLE_DELAY')]
         X.value_from('K10', 'settle:delay', C, first, ['C:Runtime::curr_epoch', 'K:SETTLE_DELAY', 'OP:Add'], 'settling_at = curr_epoch + SETTLE_DELAY')
-        X.value_from('K10', 'settle:raised-to-min', C, raised, ['F:State.min_settle_height'], 'settling_at raised to min_settle_height', copy=True)
-        X.guard('K6b', 'settle:only-raised', C, [b for (b, _a) in raised], m_rel('lt', ['F:State.settling_at'], ['F:State.min_settle_height'], True, pure=True), 'settling_at < min_settle_height')
+        # ... and never before the minimum settle height: either a second, guarded write or max(delay, min_settle_height) at once
+        if any(has_atom(v[1], 'F:State.min_settle_height') and (has_atom(v[1], 'C:cmp::max') or has_atom(v[1], 'C:Ord::max')) for v in first):
+            rep.ob('K6b', 'settle:only-raised', True, 'settling_at = max(curr_epoch + SETTLE_DELAY, min_settle_height)', X.loc(C))
+        else:
+            X.raised_only('K6b', 'settle:only-raised', C, 'State', 'settling_at', ['F:State.min_settle_height'], 'settling starts no earlier than the minimum settle height')
     X.const_is('K11', 'SETTLE_DELAY', 1440, CR)
     # --- collect
     CO = X.fn('Actor::collect', CR)
